@@ -65,6 +65,18 @@ pub struct Case {
     /// surplus buffer that keeps its content between calls); 2 = inputs -> Sum (output) <-> Delay (feedback through the output node)
     #[serde(default)]
     pub inner_kind: u8,
+    /// every input value is multiplied by 2^scale_exp (exact): quiet signals, down to the subnormal range on the grid
+    #[serde(default)]
+    pub scale_exp: i16,
+}
+
+/// 2^e as f32, e in -149..=127
+fn pow2(e: i16) -> f32 {
+    if e >= -126 {
+        f32::from_bits(((e as i32 + 127) as u32) << 23)
+    } else {
+        f32::from_bits(1u32 << (e as i32 + 149))
+    }
 }
 
 /// contents of buffer `b` of input node `node` in call `call`
@@ -72,9 +84,11 @@ fn val(c: &Case, node: usize, b: usize, i: usize, call: usize) -> f32 {
     let k = ((node * 31 + b * 17 + i * 7 + call * 13 + c.salt as usize) % 257) as i32 - 128;
     let v = k as f32 / 64.0;
     if c.exact {
-        v
+        // k x 2^(e-6) is representable down to e = -143
+        v * pow2(c.scale_exp.clamp(-143, 20))
     } else {
-        v * 0.123_456_7
+        // relative tolerances need normal numbers
+        v * 0.123_456_7 * pow2(c.scale_exp.clamp(-100, 20))
     }
 }
 
@@ -244,6 +258,7 @@ pub fn check(c0: &Case, st: &mut Stats) -> CheckResult {
     st.class_if(n_in == 0, "zero inputs");
     st.class_if(stateful && c.calls >= 2, "consecutive calls on a stateful node");
     st.class_if(c.wrapper != Wrapper::Bare, "wrapper");
+    st.class_if(c.scale_exp <= -24 && c.kind != Kind::Signal, "input level below 2^-24");
     st.class_if(c.kind == Kind::Signal && c.sig_len.map_or(false, |l| l < c.calls * LEN), "signal node over a signal that ends during the run");
     st.class_if(c.kind == Kind::GraphNode && c.inner_kind % 3 != 0, "nested graph whose output node carries state between calls");
     let sentinel = |b: usize| vec![SENTINEL + b as f32; LEN];
@@ -435,15 +450,16 @@ pub fn case_strategy() -> impl Strategy<Value = Case> {
             0usize..=4,
             prop_oneof![2 => Just(None), 1 => (0usize..300).prop_map(Some)],
             0u8..3,
+            prop_oneof![3 => Just(0i16), 1 => proptest::sample::select(vec![-24i16, -30, -60, -100, -140]), 1 => -143i16..=0],
         )
-            .prop_map(move |(mut bufs_in, delay_lens, sig_channels, inner_bufs, sig_len, inner_kind)| {
+            .prop_map(move |(mut bufs_in, delay_lens, sig_channels, inner_bufs, sig_len, inner_kind, scale_exp)| {
                 if kind == Kind::GraphNode {
                     let b0 = bufs_in.first().copied().unwrap_or(0);
                     for b in bufs_in.iter_mut() {
                         *b = b0;
                     }
                 }
-                Case { kind, wrapper: WRAPPERS[w], bufs_in, n_out, calls, exact, delay_lens, sig_channels, inner_bufs, salt: salt % 10_000, sig_len, inner_kind }
+                Case { kind, wrapper: WRAPPERS[w], bufs_in, n_out, calls, exact, delay_lens, sig_channels, inner_bufs, salt: salt % 10_000, sig_len, inner_kind, scale_exp }
             })
     })
 }
@@ -451,11 +467,11 @@ pub fn case_strategy() -> impl Strategy<Value = Case> {
 pub fn run(ctx: &mut Ctx) {
     ctx.set_rule(
         "cases are (node kind out of Sum, SumBuffers, Pass, Delay, signal node, GraphNode; wrapper out of bare, &mut, Box, BoxedNode, BoxedNodeSend, Box<dyn FnMut>, Box<dyn Fn>, fn pointer; 0..6 inputs (Pass/Delay 0 or 1) with 0..4 buffers each, \
-         0..4 output buffers (mismatched on purpose), 1..6 consecutive process calls with fresh input contents, exact (grid k/64) or inexact contents, Delay ring lengths 1..200 per channel, signal frames of 1..4 channels, inner graph shape); \
+         0..4 output buffers (mismatched on purpose), 1..6 consecutive process calls with fresh input contents, exact (grid k/64) or inexact contents, scaled by 2^e with e down to -143 (quiet and subnormal signals), Delay ring lengths 1..200 per channel, signal frames of 1..4 channels, inner graph shape); \
          inputs are supplied by constant-writer source nodes in a real graph; non-trivial: mismatched channel counts, zero inputs, >= 2 consecutive calls on a stateful node, or a wrapper",
     );
     ctx.assume("Sum / SumBuffers compared with the exact sum on grid contents (input order irrelevant) and within n eps sum|x| otherwise; surplus outputs are pre-filled with a sentinel pattern and must stay untouched where the documentation says so; wrappers must be bit-identical to the bare node; dasp_graph is built against the crates.io 0.11.0 dasp_ring_buffer / dasp_signal / dasp_frame exactly as the repository's lock file resolves them");
-    for c in ["mismatched channel counts", "zero inputs", "consecutive calls on a stateful node", "wrapper", "signal node over a signal that ends during the run", "nested graph whose output node carries state between calls"] {
+    for c in ["mismatched channel counts", "zero inputs", "consecutive calls on a stateful node", "wrapper", "input level below 2^-24", "signal node over a signal that ends during the run", "nested graph whose output node carries state between calls"] {
         ctx.require_class(c);
     }
     ctx.prop("random-configurations", ctx.pick(40_000, 400_000), case_strategy(), check);
@@ -473,13 +489,13 @@ pub fn run(ctx: &mut Ctx) {
                 if kind == Kind::GraphNode && bufs_in.iter().any(|&b| b != bufs_in[0]) {
                     continue;
                 }
-                for exact in [true, false] {
+                for (exact, scale_exp) in [(true, 0i16), (false, 0), (true, -30), (true, -140), (false, -40)] {
                     for variant in 0..3u8 {
                         if variant > 0 && !matches!(kind, Kind::Signal | Kind::GraphNode) {
                             continue;
                         }
                         cases.push(Case { kind, wrapper, bufs_in: bufs_in.clone(), n_out, calls: 4, exact, delay_lens: vec![64, 5, 100], sig_channels: 2, inner_bufs: 2, salt: 7,
-                            sig_len: [None, Some(100), Some(64)][variant as usize], inner_kind: variant });
+                            sig_len: [None, Some(100), Some(64)][variant as usize], inner_kind: variant, scale_exp });
                     }
                 }
             }
